@@ -33,32 +33,6 @@ struct bidi_it {
     friend auto operator!=(bidi_it a, bidi_it b) -> bool { return a.p != b.p; }
 };
 
-// random-access iterator that keeps the base pointer fixed and moves an index: same iterator category (and the same `if constexpr`
-// branches) as int*, but CBMC sees every access as base[i] (array index) instead of a byte-level access through a merged pointer
-struct ra_it {
-    using iterator_category = etl::random_access_iterator_tag; using value_type = int; using difference_type = etl::ptrdiff_t; using pointer = int*; using reference = int&;
-    int* b;
-    etl::ptrdiff_t i;
-    auto operator*() const -> int& { return b[i]; }
-    auto operator[](etl::ptrdiff_t n) const -> int& { return b[i + n]; }
-    auto operator++() -> ra_it& { ++i; return *this; }
-    auto operator++(int) -> ra_it { ra_it t{b, i}; ++i; return t; }
-    auto operator--() -> ra_it& { --i; return *this; }
-    auto operator--(int) -> ra_it { ra_it t{b, i}; --i; return t; }
-    auto operator+=(etl::ptrdiff_t n) -> ra_it& { i += n; return *this; }
-    auto operator-=(etl::ptrdiff_t n) -> ra_it& { i -= n; return *this; }
-    friend auto operator+(ra_it a, etl::ptrdiff_t n) -> ra_it { return ra_it{a.b, a.i + n}; }
-    friend auto operator+(etl::ptrdiff_t n, ra_it a) -> ra_it { return ra_it{a.b, a.i + n}; }
-    friend auto operator-(ra_it a, etl::ptrdiff_t n) -> ra_it { return ra_it{a.b, a.i - n}; }
-    friend auto operator-(ra_it a, ra_it c) -> etl::ptrdiff_t { return a.i - c.i; }
-    friend auto operator==(ra_it a, ra_it c) -> bool { return a.i == c.i; }
-    friend auto operator!=(ra_it a, ra_it c) -> bool { return a.i != c.i; }
-    friend auto operator<(ra_it a, ra_it c) -> bool { return a.i < c.i; }
-    friend auto operator<=(ra_it a, ra_it c) -> bool { return a.i <= c.i; }
-    friend auto operator>(ra_it a, ra_it c) -> bool { return a.i > c.i; }
-    friend auto operator>=(ra_it a, ra_it c) -> bool { return a.i >= c.i; }
-};
-
 // ---- comparators / predicates. Comparator selector c: 0 less, 1 greater, 2 modulo-equivalence on the low two bits (x mod 4 of the
 // two's complement value: many distinct-but-equivalent elements, cheap for the SAT solver), 3 modulo-equivalence a % 3 < b % 3 (one
 // 32-bit divider per operand: only used in the *_mod3 groups with a smaller length bound)
